@@ -21,7 +21,7 @@ CLAIMED = {
              "code points (R05.5). Genuine defects of the pinned tree are listed per sink in known_findings.json.",
         ref="DESIGN.md §4 C05"),
     "C09": dict(
-        technique="abstract interpretation of the naming pipeline over code-point sets (all of Unicode) + label analysis of identifier-typed fields + CFG dominance rules on the uniqueness registries",
+        technique="abstract interpretation of the naming pipeline over code-point sets (all of Unicode) + label analysis of identifier-typed fields + CFG dominance rules on the uniqueness registries; keyword-safety of every identifier-position token per filter (E6); package directory named by package_name under every truth assignment",
         text="(a) validity for ALL strings: every return path of PythonIdentifier/ClassName and every enum member-name store "
              "is interpreted over bitsets of all 0x110000 code points (first in ID_Start, rest in ID_Continue, non-empty, not "
              "reserved) - a proof or a witness character per path; (b) identifier-typed fields and template name positions "
@@ -30,7 +30,7 @@ CLAIMED = {
              "parameter loop. Not decided: that disambiguation succeeds whenever it could.",
         ref="DESIGN.md §4 C09"),
     "C18": dict(
-        technique="def-use analysis on the template flow graph (skeleton event streams per generated scope) x producibility of fixed names by the naming pipeline; hole-versus-hole collisions between derived names; python_name never in data, wire name never in code; reserved-name tests on the identifier inside the repeated pass",
+        technique="def-use analysis on the template flow graph (skeleton event streams per generated scope) x producibility of fixed names by the naming pipeline; hole-versus-hole collisions between derived names; python_name never in data, wire name never in code; reserved-name tests on the identifier inside the repeated pass; identifier comparison dominates every store into the model's property mapping",
         text="For every generated scope (class body, each def, nested defs) of model.py.jinja and endpoint_module.py.jinja the "
              "templates are unrolled (branches in sequence, loops twice, macros inlined per dispatch candidate) into BIND/READ "
              "events of template-written identifiers and of document-name holes with their affixes; a fixed name that a hole "
@@ -40,7 +40,7 @@ CLAIMED = {
              "reproduced dynamically once (findings/repro_c18.py).",
         ref="DESIGN.md §4 C18"),
     "C06": dict(
-        technique="exception-escape analysis over the call graph with try/handler matching, may-raise tables on document-derived operands (labels and narrowed types from the abstract interpreter), template dispatch totality, five ranking arguments for every loop and recursive cycle on the labelled CFG, abstract evaluation of the exit-status decision, regex ambiguity analysis",
+        technique="exception-escape analysis over the call graph with try/handler matching, may-raise tables on document-derived operands (labels and narrowed types from the abstract interpreter), template dispatch totality, five ranking arguments for every loop and recursive cycle on the labelled CFG, abstract evaluation of the exit-status decision, regex ambiguity analysis; None-rejecting operations on optional document-derived values; fixed-position accesses into document-sized sequences; tree-versus-graph provenance for structural recursion (YAML loader output needs a visited set)",
         text="Absence over all paths: every explicit raise is a recognised protocol or caught on every call path from the entry "
              "points; every raising library call applied to document-derived operands sits in a try that catches what it raises; "
              "callbacks that run inside pydantic validation raise only what pydantic wraps; untrusted Any is not returned as a "
@@ -49,7 +49,7 @@ CLAIMED = {
              "exceptions and hangs inside third-party code, RecursionError on pathologically deep documents.",
         ref="DESIGN.md §4 C06"),
     "C12": dict(
-        technique="typed enumeration of every order-observation of a set (Python via abstract-interpreter types, Jinja via the template interpreter) + structural rules for the permutation clause",
+        technique="typed enumeration of every order-observation of a set (Python via abstract-interpreter types, Jinja via the template interpreter) + structural rules for the permutation clause; effect analysis of traversals of sets (followed into callees, generators as unordered iterables); hash() / id() as environment sources; loops over document maps must not read back state they fill",
         text="Hash-seed clause decided for all documents: every place where the order of a set-typed value is observed is "
              "enumerated from the typed program and must be sorted, a proven singleton, an order-insensitive keyed update, or a "
              "frozen diagnostics-only case; environment-dependent sources are enumerated (none). Permutation clause only through "
@@ -57,7 +57,7 @@ CLAIMED = {
              "tests on references, monotone updates of shared classes. Not decided: invariance under permutation as such.",
         ref="DESIGN.md §4 C12"),
     "C19": dict(
-        technique="effect analysis: every filesystem / process effect site with its path as string structure rooted (through aliases) in an output directory, sanitiser alphabets from E6, dominance by the existing-directory decision and by an exclusive creation, control dependence of writes on filesystem observations (post-dominators)",
+        technique="effect analysis: every filesystem / process effect site with its path as string structure rooted (through aliases) in an output directory, sanitiser alphabets from E6, dominance by the existing-directory decision and by an exclusive creation, control dependence of writes on filesystem observations (post-dominators); value flow of --output-path / --overwrite into every Config; project_dir / package_dir placement evaluated per truth assignment; the run itself independent of filesystem observations",
         text="For all documents and names: each of the 25 effect sites has a path of the shape <project_dir|package_dir>/"
              "(literal | sanitised component)*, and E6 proves over all code points that the sanitisers cannot emit a path "
              "separator, NUL, or a leading dot; no effect precedes the existing-directory decision (dominance on Project.build), "
@@ -65,7 +65,7 @@ CLAIMED = {
              "document-dependent file names occur only under them. Not decided: file-system races, cross-flavour histories.",
         ref="DESIGN.md §4 C19"),
     "C10": dict(
-        technique="generated decode / encode text per valuation of the template conditions, run abstractly on the UNSET path; path enumeration of the type-string builders over their boolean atoms; requiredness forwarded on every path to a non-error return; both declarations combined by the merge",
+        technique="generated decode / encode text per valuation of the template conditions, run abstractly on the UNSET path; path enumeration of the type-string builders over their boolean atoms; requiredness forwarded on every path to a non-error return; both declarations combined by the merge; generated decoders run on the 'present' path (only the sentinel test may select UNSET)",
         text="Structural clauses, each a necessary condition: all 5 get_type_string implementations mention Unset exactly when "
              "`not no_optional and not required` (all paths, 4 combinations each); to_string's default matrix; every transform/"
              "construct macro (27) handles Unset only on the optional arm and only by isinstance; a guard is skipped only under "
@@ -74,14 +74,14 @@ CLAIMED = {
              "builders. Not decided: run-time attribute values.",
         ref="DESIGN.md §4 C10"),
     "C14": dict(
-        technique="per-class facts of the enum builders and the merge dispatcher (helpers inlined, constant records and loops unrolled, every property class simulated as the other argument), generated decode / encode code read per valuation (closed decode, const check raises on every path, transforms write the value), enum writes to the document keep or select",
+        technique="per-class facts of the enum builders and the merge dispatcher (helpers inlined, constant records and loops unrolled, every property class simulated as the other argument), generated decode / encode code read per valuation (closed decode, const check raises on every path, transforms write the value), enum writes to the document keep or select; union decoder never swallows the rejection of a closed member; the decoding call reaches every present value (path simulation of the generated decoder)",
         text="Structural clauses: EnumProperty.build == LiteralEnumProperty.build modulo class name and values representation; "
              "null extraction by identity; every member-name store dominated by a duplicate test on the stored key that leads to "
              "a diagnostic; decode closed (Enum(value), check function with raising fall-through, const comparison), encode "
              ".value/identity; member values reach the class with a single escaping. Not decided: Enum(value) itself.",
         ref="DESIGN.md §4 C14"),
     "C13": dict(
-        technique="path-sensitive walker (named decisions, class sets, generators, helpers walked in place) over the 14 builders and convert_value implementations: every path converts the declared default and hands it on, accept paths store converted values, defaults are given when the object is made",
+        technique="path-sensitive walker (named decisions, class sets, generators, helpers walked in place) over the 14 builders and convert_value implementations: every path converts the declared default and hands it on, accept paths store converted values, defaults are given when the object is made; determinants of a default (fields convert_value reads) versus copies that replace them; folds walked as loops; union members asked in declared order",
         text="Structural clauses: every builder passes its default through convert_value, returns a PropertyError before "
              "construction/registration and stores the converted value; typed convert_value implementations reject by default, "
              "accept only under type/membership tests, exclude bool where int is accepted; the const check compares converted "
@@ -90,7 +90,7 @@ CLAIMED = {
              "decided: value equality of the evaluated default.",
         ref="DESIGN.md §4 C13"),
     "C15": dict(
-        technique="symbolic execution of merge_properties and its helpers over truth assignments of the isinstance atoms (constants folded, helpers specialised per constant), alias classes across closures / returns for the allOf loops, dominance of stores by the python-name comparison, CFG reachability of the allOf move under type shapes",
+        technique="symbolic execution of merge_properties and its helpers over truth assignments of the isinstance atoms (constants folded, helpers specialised per constant), alias classes across closures / returns for the allOf loops, dominance of stores by the python-name comparison, CFG reachability of the allOf move under type shapes; determinants of a default versus narrowing copies; one list of enum values per class name; parent-processed test evaluated concretely for None / empty / non-empty lists",
         text="Structural clauses: each type-pair branch has its mirror with the same (more specific) base; enum narrowing "
              "compares (name, value) pairs in both directions; fall-through is an error; requiredness is a disjunction; inline "
              "members' required/properties are collected on every path; required_set reaches every property (insertion or final "
@@ -98,7 +98,7 @@ CLAIMED = {
              "test. Not decided: round trip of composed instances.",
         ref="DESIGN.md §4 C15"),
     "C07": dict(
-        technique="error-discipline rules over the typed program: every per-item loop (or the loop a comprehension / generator abbreviates) records an error or keeps the item on every path; keyed registries tested before stored, judged at the call sites of helpers; accumulators returned entire; the document parsed is the document loaded",
+        technique="error-discipline rules over the typed program: every per-item loop (or the loop a comprehension / generator abbreviates) records an error or keeps the item on every path; keyed registries tested before stored, judged at the call sites of helpers; accumulators returned entire; the document parsed is the document loaded; per-round versus final error lists by path; errors handed out are fresh objects; copies of diagnostic carriers keep the list whole",
         text="Accounting clauses over all paths: no error-typed value is discarded (58 call sites); in the 8 loops over document "
              "collections each of the 19 skips is preceded by an error record in the same iteration or is one of 5 frozen benign "
              "cases; diagnostics name METHOD+path / reference; registry collisions lead to diagnostics (3 module-file scopes are "
@@ -106,21 +106,21 @@ CLAIMED = {
              "method list = Operation fields of PathItem. Not decided: the census itself.",
         ref="DESIGN.md §4 C07"),
     "C08": dict(
-        technique="who-may-write analysis on the threaded registries and on handed-over property objects (reaching definitions, helper summaries, frozen role table), CFG dominance for dependency recording, def-use of the threaded state, accumulators returned entire, output directories rebuilt from empty",
+        technique="who-may-write analysis on the threaded registries and on handed-over property objects (reaching definitions, helper summaries, frozen role table), CFG dominance for dependency recording, def-use of the threaded state, accumulators returned entire, output directories rebuilt from empty; abstract interpretation of the item loops that thread a registry, with a greatest-fixpoint summary 'clean on error' of every state-threading function (a rejected item leaves nothing behind); monotone round progress; error stores only poured on; picks out of possibly empty collections in templates guarded (truth tables over guard atoms)",
         text="Containment mechanisms only: add_dependencies dominates every successful reference resolution and roots are forwarded "
              "to every recursive build; removal visits recorded dependants; the threaded state is rebound only from results of "
              "steps that received it (42 assignments, 32 error returns); no return/break inside the 17 per-item loops; the "
              "registry stores a fresh set. Not decided: byte equality of two output trees.",
         ref="DESIGN.md §4 C08"),
     "C20": dict(
-        technique="def-use rules on the three resolvers followed through helpers and generators, attribute-copy completeness, scenario walking for lookup misses, discriminator decided by key presence (truth table), descent parameters handed on, in-place registry writes, termination of reference cycles",
+        technique="def-use rules on the three resolvers followed through helpers and generators, attribute-copy completeness, scenario walking for lookup misses, discriminator decided by key presence (truth table), descent parameters handed on, in-place registry writes, termination of reference cycles; value flow of ReferenceOr positions through the document model's validators (members not inspected before references are resolved); document objects read-only for builders",
         text="Resolver convergence only: the reference branches rebind just the resolved variable; the chain loop tests the current "
              "link; parameter_from_data copies what add_parameters reads; every .ref read (13) is validated / chain-guarded / "
              "diagnostic text; the validator rejects every non-fragment URL component; misses return errors; a schema reference "
              "evolves only use-site attributes; the dependency registry does not alias. Not decided: equality of generated code.",
         ref="DESIGN.md §4 C20"),
     "C16": dict(
-        technique="symbolic execution with helper inlining: each CLI option reaches its Config field as itself, each option is read only by its documented readers (typed receivers), media types are classified through the override table keyed by the document's spelling, the two enum classes selected by literal_enums agree on exported macros and locations",
+        technique="symbolic execution with helper inlining: each CLI option reaches its Config field as itself, each option is read only by its documented readers (typed receivers), media types are classified through the override table keyed by the document's spelling, the two enum classes selected by literal_enums agree on exported macros and locations; overrides keyed by the generated class name (value flow into the lookup key); Content-Type written whatever the body's classification (truth table); configuration file decoded as written",
         text="Effect-scope clauses: the 17 Config fields are copied unmodified from ConfigFile/CLI (defaults only under `is None`); "
              "all 65 reads of Config fields in Python and templates are inside the function/template documented for the option and "
              "no option is unread; all 17 writes pass the configured encoding; all 25 name-constructor sites pass field_prefix "
@@ -128,7 +128,7 @@ CLAIMED = {
              "emitted; tags keep document order and tags[:1] applies iff generate_all_tags is off. Not decided: two-run equalities.",
         ref="DESIGN.md §4 C16"),
     "C02": dict(
-        technique="writer/reader agreement over the generated text of every kind's macros (assembled per valuation of the template conditions), orientation analysis of union member order, who-may-write frame on document objects, producer/consumer agreement of the own-import test",
+        technique="writer/reader agreement over the generated text of every kind's macros (assembled per valuation of the template conditions), orientation analysis of union member order, who-may-write frame on document objects, producer/consumer agreement of the own-import test; the working copy of the source is only popped; walks of two document sequences in step have one origin or compared lengths",
         text="Only structural clauses that are necessary for the round trip; the behaviour (equality of run-time values) is NOT "
              "decided. Decided: to_dict writers and the from_dict reader use the same wire-key expression in a string context over "
              "the same property domain; every kind whose Python type differs from its JSON type defines both construct and "
@@ -136,7 +136,7 @@ CLAIMED = {
              "kept; field_dict is a fresh dict; absence recognised by isinstance only; inherited property objects not mutated.",
         ref="DESIGN.md §4 C02"),
     "C03": dict(
-        technique="role-based value flow over regions (function + helpers + generators + closures): parameter identity includes the location, wire name and location travel with the schema; generated-code rules on the parsed skeleton of the client classes; truth tables over Jinja guards with integer-modelled lengths; header values through the str transform",
+        technique="role-based value flow over regions (function + helpers + generators + closures): parameter identity includes the location, wire name and location travel with the schema; generated-code rules on the parsed skeleton of the client classes; truth tables over Jinja guards with integer-modelled lengths; header values through the str transform; a request does not depend on earlier calls (no statement changes the client's state); query parameter stored once per path",
         text="Structural clauses; the bytes sent are NOT decided. Decided: wire names are keys inside string literals and python "
              "names the values; placeholders rewritten and formatted over one collection; every use of headers/cookies/params is "
              "emitted only where its definition is (9 uses, integer-modelled guards); BodyType = body_to_kwarg branches = httpx "
@@ -144,7 +144,7 @@ CLAIMED = {
              "converts (8 kinds); sync/async equal modulo async/await; security wiring; parameter identity = (name, location).",
         ref="DESIGN.md §4 C03"),
     "C04": dict(
-        technique="scenario-driven path walking (sa/rules/scenario.py: feasible paths under 'content is empty', 'HTTPStatus raises', ...) with provenance of source and schema, generated response dispatch read per valuation and parsed as Python, truth table on the union guard, predicate-atom tables of the media-type classifier",
+        technique="scenario-driven path walking (sa/rules/scenario.py: feasible paths under 'content is empty', 'HTTPStatus raises', ...) with provenance of source and schema, generated response dispatch read per valuation and parsed as Python, truth table on the union guard, predicate-atom tables of the media-type classifier; reachability-based process-state analysis (no write outlives a call unless keyed by everything the value depends on); symbolic walk of the union decoder over abstract member lists",
         text="Structural clauses: one status test per parsed response and every branch returns; the raise-or-None tail is emitted "
              "unconditionally; the media-type table equals the one in the property statement and each source pairs accessor with "
              "type; construct-or-cast selection; a union member's bare TypeError implies last-and-nothing-can-follow (truth table); "
@@ -152,7 +152,7 @@ CLAIMED = {
              "only `data`. Not decided: decoding of values.",
         ref="DESIGN.md §4 C04"),
     "C01": dict(
-        technique="import-closure analysis over texts-with-holes (abstract evaluation of get_imports / type strings per requiredness and host), abstract run of model.py.jinja with macros / includes / captured blocks expanded (lazy imports first, declaration order by truth table), lexical neutrality of template blocks, FIRST/FOLLOW sets of code-context holes (keyword gluing), argument-forwarding along the schema descent, E6 on leading underscores",
+        technique="import-closure analysis over texts-with-holes (abstract evaluation of get_imports / type strings per requiredness and host), abstract run of model.py.jinja with macros / includes / captured blocks expanded (lazy imports first, declaration order by truth table), lexical neutrality of template blocks, FIRST/FOLLOW sets of code-context holes (keyword gluing), argument-forwarding along the schema descent, E6 on leading underscores; rendering of every generated parameter list for 0 / 1 / 2 elements per collection (positional part, bare star); def-use of template-written names in generated functions (skeleton events); conservation of import lines between get_imports and the printing loop; sibling-module imports named by the derivation of the written file",
         text="Necessary conditions only (compiling/importing every output is NOT decided): 64 import-closure obligations (16 kinds x "
              "required/optional x model/endpoint host); check_ helper named by one method at definition/import/use; lazy imports "
              "first in every model function that can use a model class at run time; quoted evaluated annotations; declaration "
